@@ -7,7 +7,9 @@ import MgpuProofs.C01KernImg
   terminates without fault, `out[e] = reluBits (in[e])` for the elements `lo ≤ e < lo + min G (count − lo)`,
   every other byte of memory unchanged.
 * `relu_split_covers` — the benchmark's split of `length` elements over `g` queues (`grid = length / g` each,
-  offset `i · grid`) covers `[0, g·(length / g))` without overlap — and misses the `length % g` trailing elements.
+  offset `i · grid`, the LAST queue takes `length − (g−1)·grid`) covers `[0, length)` without overlap, for every
+  `length` and `g`; `relu_split_covers_old` is the split before the repair of finding
+  `C01-relu-split-drops-remainder` (every queue `length / g`: the `length % g` trailing elements were missed).
 * `mulKernel_correct` / `mulKernel_run` — `mul` of amd/benchmarks/dnn/gputensor/operator.hsaco
   (`GPUOperator.ElementWiseMul`; 32 instructions): `out[e] = mulBits (in1[e], in2[e])` for `lo ≤ e < lo + min G (n + 1 − lo)`.
 * `mul_respects_count_full` / `_refuted` / `mulKernel_exact` — the kernel's bounds test is `tid > n`: with a grid
@@ -70,11 +72,56 @@ theorem reluKernel_run (c : Map.Cfg) (src : Nat) (hv : Relu.Valid c src) (hG : 0
     (by have := hv.paEnd; omega) (by have := hv.kaEnd; omega) (by decide) _ pk m
     (Relu.relu_img c src (by have := hv.lim31; omega) (by omega) hsrc hdst tail pk m hpk h4 h5 hsep)
 
-/-- **relu_split_covers.** `relu.Benchmark.exec` gives queue `i` of `g` the grid `w = length / g`, the count
-    `length` and the hidden offset `i·w`: the written element ranges `[i·w, i·w + min w (length − i·w))` are the
-    consecutive blocks `[i·w, (i+1)·w)` — together `[0, g·w)`, no overlap — so the last `length % g` elements
-    are NOT computed when `g` does not divide `length`. -/
+/-- grid size of queue `i` of `g` in `relu.Benchmark.exec`: `length / g`, the last queue takes what is left -/
+def reluSplitGrid (length g i : Nat) : Nat := if i + 1 = g then length - i * (length / g) else length / g
+
+/-- first element behind the block of queue `i` -/
+def reluSplitEnd (length g i : Nat) : Nat := if i + 1 = g then length else (i + 1) * (length / g)
+
+/-- **relu_split_covers (full statement, a theorem since the repair of finding
+    `C01-relu-split-drops-remainder`).** `relu.Benchmark.exec` gives queue `i` of `g` the hidden offset `i·w`
+    (`w = length / g`), the count `length` and the grid `w` — the last queue the grid `length − (g−1)·w`: the
+    written element ranges `[i·w, i·w + min grid (length − i·w))` are the consecutive blocks
+    `[i·w, (i+1)·w)` for `i < g−1` and `[(g−1)·w, length)` for the last queue: every block starts where the
+    previous one ends, the first at 0, the last ends at `length` — together exactly `[0, length)`, no overlap,
+    for EVERY `length` and every number of queues (`length % g ≠ 0` and `length < g` included). -/
 theorem relu_split_covers (length g i : Nat) (hg : 0 < g) (hi : i < g) :
+    let w := length / g
+    let c : Map.Cfg := ⟨0, 0, 0, 0, i * w, length, reluSplitGrid length g i⟩
+    c.lo + c.K = reluSplitEnd length g i ∧
+    (i = 0 → c.lo = 0) ∧ (0 < i → c.lo = reluSplitEnd length g (i - 1)) ∧
+    (i + 1 = g → reluSplitEnd length g i = length) ∧ reluSplitEnd length g i ≤ length := by
+  have hw : g * (length / g) ≤ length := Nat.mul_div_le length g
+  have h1 : (i + 1) * (length / g) ≤ g * (length / g) := Nat.mul_le_mul_right _ hi
+  have h2 : (i + 1) * (length / g) = i * (length / g) + length / g := by rw [Nat.add_mul, Nat.one_mul]
+  have h3 : i + 1 = g → (i + 1) * (length / g) = g * (length / g) := by intro h; rw [h]
+  refine ⟨?_, ?_, ?_, ?_, ?_⟩
+  · show i * (length / g) + min (reluSplitGrid length g i) (length - i * (length / g)) = reluSplitEnd length g i
+    unfold reluSplitGrid reluSplitEnd
+    generalize length / g = w at *
+    split
+    · rename_i hl; have := h3 hl; omega
+    · omega
+  · intro h0; show i * (length / g) = 0; rw [h0, Nat.zero_mul]
+  · intro hpos
+    show i * (length / g) = reluSplitEnd length g (i - 1)
+    unfold reluSplitEnd
+    have : i - 1 + 1 = i := by omega
+    rw [this, if_neg (by omega)]
+  · intro hl; unfold reluSplitEnd; rw [if_pos hl]
+  · unfold reluSplitEnd
+    generalize length / g = w at *
+    split <;> omega
+
+/-- `relu -length=101 -gpus=1,2` (the input of the former finding): queue 0 writes `[0, 50)`, queue 1 `[50, 101)` -/
+example : reluSplitGrid 101 2 0 = 50 ∧ reluSplitEnd 101 2 0 = 50 ∧ reluSplitGrid 101 2 1 = 51 ∧ reluSplitEnd 101 2 1 = 101 ∧
+    reluSplitGrid 102 4 3 = 27 ∧ reluSplitEnd 102 4 3 = 102 ∧ reluSplitGrid 3 4 3 = 3 ∧ reluSplitGrid 3 4 0 = 0 := by decide
+
+/-- **The split before the repair** (`numWI := b.Length / len(b.gpus)` for every queue): the written element
+    ranges are the consecutive blocks `[i·w, (i+1)·w)` — together `[0, g·w)`, no overlap — so the last
+    `length % g` elements were NOT computed when `g` does not divide `length` (finding
+    `C01-relu-split-drops-remainder`: `relu -length=101 -gpus=1,2`, `mismatch at 100`). -/
+theorem relu_split_covers_old (length g i : Nat) (hg : 0 < g) (hi : i < g) :
     let w := length / g
     let c : Map.Cfg := ⟨0, 0, 0, 0, i * w, length, w⟩
     c.lo + c.K = (i + 1) * w ∧ g * w ≤ length ∧ (g * w = length ↔ length % g = 0) := by
@@ -89,6 +136,9 @@ theorem relu_split_covers (length g i : Nat) (hg : 0 < g) (hi : i < g) :
   constructor
   · intro h; omega
   · intro h; omega
+
+/-- the old split of the finding's input ends at element 100 of 101 -/
+example : (2 : Nat) * (101 / 2) = 100 ∧ 101 % 2 ≠ 0 := by decide
 
 /-- **mulKernel_correct.** The same for `mul` (operator.hsaco) with the argument image
     `elemWiseMulKernArg{out, in1, in2, n, 0, lo, 0, 0}`: `out[e] = mulBits (in1[e], in2[e])` for the elements
